@@ -1,5 +1,6 @@
 """C04 — seeded simulations are reproducible."""
 import re, os, glob
+_extra = (0, 0)
 
 ID = "C04"; MODEL = "determ"; IMPL = "determ"
 COQ_PROP = "Properties/C04.v"; COQ_DIRS = ["Common", "CQueue", "Determ"]
@@ -42,13 +43,15 @@ def parse(script):
     for _ in range(nk):
         kicks.append(tuple(script[i:i + 3])); i += 3
     rounds = script[i] % 8; d = max(script[i + 1], 1)
+    global _extra
+    _extra = (script[i + 2] % 5, script[i + 3] % 4)
     return seed, k, lat, jit, kicks, rounds, d
 
 
 def pretty(script):
     seed, k, lat, jit, kicks, rounds, d = parse(script)
-    return "seed=%d ring of %d, hops(lat,jit)=%s, kicks(time,dst,ttl)=%s, select rounds=%d sleep=%dns" % (
-        seed, k, list(zip(lat, jit)), kicks, rounds, d)
+    return "seed=%d ring of %d, hops(lat,jit)=%s, kicks(time,dst,ttl)=%s, select rounds=%d sleep=%dns, aux tasks=%d restarts=%d" % (
+        seed, k, list(zip(lat, jit)), kicks, rounds, d, _extra[0], _extra[1])
 
 
 def gen(rng, n):
@@ -64,6 +67,7 @@ def gen(rng, n):
             t += rng.choice([0, 0, 1, 5, 100])
             s += [t, rng.randint(0, k - 1), rng.randint(0, 15)]
         s += [rng.choice([0, 0, 1, 2, 4]), rng.choice([1, 5, 10, 100])]
+        s += [rng.choice([0, 1, 2, 3, 4]), rng.choice([0, 0, 1, 2, 3])]   # aux: side-by-side tasks, restarts
         yield s
 
 
@@ -84,7 +88,7 @@ def model_input(script, out):
         m, now, ttl, token, r, _ = e
         if ttl > 0 and r != 0 and jit[m] > 0:
             js.append(arrival.get((token, ttl - 1), 0))
-    nused = 2 + 2 * k + 1 + 3 * len(kicks) + 2
+    nused = 2 + 2 * k + 1 + 3 * len(kicks) + 4
     return list(script[:nused]) + [len(rs)] + rs + [len(js)] + js
 
 
@@ -141,6 +145,8 @@ def mechanisms(script, out):
     m = set()
     if any(j > 0 for j in jit): m.add("jittered_hop")
     if rounds: m.add("select_race")
+    if _extra[0] >= 2: m.add("equal_deadline_tasks_in_one_module")
+    if _extra[0] and _extra[1]: m.add("module_restart_reseeds_runtime")
     if any(l == 0 for l in lat): m.add("zero_latency_hop")
     if len(kicks) > 1: m.add("several_tokens")
     if len(set(kk[0] for kk in kicks)) < len(kicks): m.add("simultaneous_kicks")
